@@ -11,7 +11,9 @@ package main
 // It does NOT constrain: which error status refuses a request that does not reach the handler, whether and with which
 // value WWW-Authenticate is sent, WHICH error (missing key / invalid key / the validator's own) an ErrorHandler is
 // handed, and the behaviour under a KeyLookup that names no known source kind (the quantifier lists header / query /
-// form / cookie / several sources).
+// form / cookie / several sources) or a source with an EMPTY name - neither at request time (the model's `panic`,
+// c13TolNoSourcePanic) nor at construction (an implementation that refuses to build such a middleware at all fails closed:
+// c13TolCtorRefusal).
 //
 // c13Tolerable parses both lines (same token format on both sides) and answers true only if every field of (a)-(c)
 // agrees and the remaining differences are of the kinds just listed.  Anything it cannot parse is not tolerated.
@@ -160,10 +162,72 @@ func c13TolKind(c *c13Case) int {
 	return -1 // CreateExtractors (what the extractors return IS the "value found at a configured lookup location"), streams
 }
 
+// the KeyLookup in force of one KeyAuth instance (or the argument of CreateExtractors) has an element outside the
+// property's quantifier: it splits into `<source>:<name>[:...]` but the source is none of the documented kinds (compared
+// exactly, as the code does: `Header`, `headers`, ` header` are unknown) or the name is empty.  (An element that does
+// not even split is a configuration error on both sides already.)
+func c13TolLookupOutside(l *c13Case) bool {
+	lookup := l.Lookup
+	if l.Mode != 3 {
+		if l.Mode != 1 || l.Ctor >= 2 {
+			return false
+		}
+		if l.Ctor == 1 || lookup == "" {
+			return false // the documented default `header:Authorization`
+		}
+	}
+	if lookup == "" {
+		return false
+	}
+	for _, part := range strings.Split(lookup, ",") {
+		f := strings.Split(part, ":")
+		if len(f) < 2 {
+			continue
+		}
+		switch f[0] {
+		case "header", "query", "form", "cookie", "param":
+			if f[1] == "" {
+				return true
+			}
+		default:
+			return true
+		}
+	}
+	return false
+}
+
+// c13TolCtorRefusal: the implementation refused at CONSTRUCTION (KeyAuthWithConfig panicked / CreateExtractors returned
+// an error) although every lookup splits into its parts, and the model built the middleware.  Tolerated iff some instance
+// of the case has a lookup outside the quantifier: no middleware exists, so no handler runs behind it and no validator is
+// asked - nothing the property speaks about can go wrong.  The exact observation texts are the ones c13RunKey /
+// c13RunStack / c13RunExtractors render for "constructor refused, lookups well-formed".
+func c13TolCtorRefusal(c *c13Case, implObs string) bool {
+	switch {
+	case c.Mode == 3:
+		return implObs == "config-error=true but lookup well-formed=true" && c13TolLookupOutside(c)
+	case len(c.Stack) > 0 && (c.Mode == 0 || c.Mode == 1):
+		if implObs != "config-panic=true but lookups well-formed=true" {
+			return false
+		}
+		for _, l := range c13Layers(c) {
+			if c13TolLookupOutside(l) {
+				return true
+			}
+		}
+		return false
+	case c.Mode == 1:
+		return implObs == "config-panic=true but lookup well-formed=true" && c13TolLookupOutside(c13Norm(c))
+	}
+	return false
+}
+
 func c13Tolerable(ci any, implObs, modelObs string) bool {
 	c, isCase := ci.(*c13Case)
 	if !isCase || c == nil {
 		return false
+	}
+	if c13TolCtorRefusal(c, implObs) {
+		return true
 	}
 	kind := c13TolKind(c)
 	if kind < 0 {
